@@ -429,17 +429,26 @@ fn it_elasticnet(d: &Data) -> Sections {
 fn it_logistic(d: &Data) -> Sections {
     use linfa_logistic::{LogisticRegression, MultiLogisticRegression};
     let ds = Dataset::new(d.rx.clone(), d.rb.clone());
-    let m = LogisticRegression::default().max_iterations(40).fit(&ds).unwrap();
+    let mut out = vec![];
+    // a fit error (e.g. a failed line search) is a result like any other: it must be the same every run
+    match LogisticRegression::default().max_iterations(40).fit(&ds) {
+        Ok(m) => {
+            out.push(sec("params", f64s(m.params().iter())));
+            out.push(sec("intercept", f64s([m.intercept()].iter())));
+            out.push(sec("predict", bools(m.predict(&d.rx).iter())));
+        }
+        Err(e) => out.push(sec("binary_error", format!("{:?}", e).into_bytes())),
+    }
     let dsm = Dataset::new(d.rx.clone(), d.rc.clone());
-    let mm = MultiLogisticRegression::default().max_iterations(40).fit(&dsm).unwrap();
-    vec![
-        sec("params", f64s(m.params().iter())),
-        sec("intercept", f64s([m.intercept()].iter())),
-        sec("predict", bools(m.predict(&d.rx).iter())),
-        sec("multi_params", f64s(mm.params().iter())),
-        sec("multi_intercept", f64s(mm.intercept().iter())),
-        sec("multi_predict", usizes(mm.predict(&d.rx).iter())),
-    ]
+    match MultiLogisticRegression::default().max_iterations(40).fit(&dsm) {
+        Ok(mm) => {
+            out.push(sec("multi_params", f64s(mm.params().iter())));
+            out.push(sec("multi_intercept", f64s(mm.intercept().iter())));
+            out.push(sec("multi_predict", usizes(mm.predict(&d.rx).iter())));
+        }
+        Err(e) => out.push(sec("multi_error", format!("{:?}", e).into_bytes())),
+    }
+    out
 }
 fn it_svm(d: &Data) -> Sections {
     use linfa_svm::Svm;
@@ -521,6 +530,16 @@ fn it_dataset(d: &Data) -> Sections {
     vec![sec("shuffle", f64s(sh.records().iter())), sec("pearson", f64s(corr.get_coeffs().iter())), sec("labels_sorted", usizes(labels.iter()))]
 }
 
+fn it_diffusion(d: &Data) -> Sections {
+    use linfa_kernel::{Kernel, KernelMethod, KernelType};
+    use linfa_reduction::DiffusionMap;
+    let kernel = Kernel::params().kind(KernelType::Sparse(6)).method(KernelMethod::Gaussian(2.0)).transform(d.small.view());
+    let m = DiffusionMap::<f64>::params(2).steps(1).transform(&kernel).unwrap();
+    let kd = Kernel::params().method(KernelMethod::Gaussian(2.0)).transform(d.small.view());
+    let md = DiffusionMap::<f64>::params(2).steps(2).transform(&kd).unwrap();
+    vec![sec("embedding_sparse", f64s(m.embedding().iter())), sec("embedding_dense", f64s(md.embedding().iter())), sec("eigvals", f64s(md.eigvals().iter()))]
+}
+
 fn battery() -> Vec<Item> {
     vec![
         Item { name: "kmeans_pp_default_seed", parallel: true, f: it_kmeans_pp },
@@ -537,6 +556,7 @@ fn battery() -> Vec<Item> {
         Item { name: "multinomial_nb", parallel: false, f: it_mnb },
         Item { name: "pca", parallel: false, f: it_pca },
         Item { name: "random_projection", parallel: false, f: it_randproj },
+        Item { name: "diffusion_map", parallel: false, f: it_diffusion },
         Item { name: "fast_ica_seeded", parallel: false, f: it_ica },
         Item { name: "ftrl", parallel: false, f: it_ftrl },
         Item { name: "linear", parallel: false, f: it_linear },
@@ -551,7 +571,7 @@ fn battery() -> Vec<Item> {
 }
 
 fn data_seeds(seed: u64, thorough: bool) -> Vec<u64> {
-    let n = if thorough { 6 } else { 3 };
+    let n = if thorough { 30 } else { 5 };
     (0..n).map(|i| seed.wrapping_mul(1000).wrapping_add(i)).collect()
 }
 
@@ -654,9 +674,20 @@ fn estimator_runs(em: &mut Em, seed: u64) {
             let pools: &[usize] = if item.parallel || thorough { &pools_all } else { &pools_few };
             let children: Vec<Option<Vec<(String, String)>>> = child_digests.iter().map(|c| c.get(&key).cloned()).collect();
             em.count(&format!("est:{}", item.name));
+            let wanted = em.only.map(|o| o == em.idx).unwrap_or(true);
+            let base = if wanted { run_item_safe(item, &d) } else { vec![] };
+            if wanted && base.first().map(|x| x.0 == "panic").unwrap_or(true) {
+                em.count(&format!("est_panicked:{}", item.name));
+            }
+            if wanted && base.iter().any(|x| x.0.ends_with("error")) {
+                em.count(&format!("est_fit_error:{}", item.name));
+            }
             em.case(op, |ctx| {
-                let base = run_item_safe(item, &d);
-                ctx.require(base.first().map(|x| x.0 != "panic").unwrap_or(false), "no_panic", &class, || "estimator battery item panicked or returned nothing".to_string());
+                // a panic / fit error is not a determinism failure (it must merely be the same on every run);
+                // such cases are marked trivial so that they do not count as coverage
+                if base.first().map(|x| x.0 == "panic").unwrap_or(true) {
+                    ctx.mark_trivial();
+                }
                 for r in 0..repeats {
                     let again = run_item_safe(item, &d);
                     if let Some(df) = first_diff(&base, &again) {
